@@ -439,7 +439,10 @@ def run(ctx, proof, driver_ok):
             'not see the collection as it was at one instant' if clauses & {'a', 'b'} else
             'a reader that iterates and a concurrent writer do not both run to completion '
             'without error'))
-        ctx.violation(rep, rank=3 + i)
+        # the first report of every reader before the second of any
+        earlier = len([1 for r in ibad[:i] if r['iter_probe']['reader'] ==
+                       rep['iter_probe']['reader']])
+        ctx.violation(rep, rank=3 + 1000 * earlier + i)
     cases = []
     # the witnesses of the findings repaired in the library go through the same correspondence
     fixed = [e for e in common.load_known('C19') if e.get('status') == 'fixed']
